@@ -17,9 +17,12 @@ type refMap struct {
 type refEntry struct {
 	val interface{}
 	e   int64 // expiry, unix ns; 0 = never expires
+	// altE != 0: the expiry is either e or altE (an already expired entry hit by ExpireAll may keep its
+	// older expiry or get the ExpireAll instant); settled by the first observation
 	// band for not yet revealed jittered expiry
 	lo, hi  int64
 	settled bool
+	altE    int64
 }
 
 type readKind int
@@ -127,6 +130,12 @@ func (r *refMap) read(now time.Time, key []byte) (readKind, *refEntry) {
 	return rkHit, e
 }
 
+// atBoundary reports whether now is exactly the entry's expiry instant: "reads before that instant
+// return the value, reads after it return ErrExpired" leaves the instant itself open.
+func (e *refEntry) atBoundary(now time.Time) bool {
+	return e != nil && e.e != 0 && e.e == now.UnixNano()
+}
+
 func (r *refMap) del(key []byte) bool {
 	_, ok := r.m[string(key)]
 	delete(r.m, string(key))
@@ -136,11 +145,31 @@ func (r *refMap) del(key []byte) bool {
 
 func (r *refMap) expireAll(now time.Time) int {
 	for _, e := range r.m {
+		if e.e != 0 && e.e < now.UnixNano() {
+			// already expired: "expired but still retrievable as stale" holds with either instant
+			if e.altE == 0 {
+				e.altE = e.e
+			}
+		} else {
+			e.altE = 0
+		}
+
 		e.e = now.UnixNano()
 		e.settled = true
 	}
 
 	return len(r.m)
+}
+
+// observeExpiry settles an entry whose expiry may be one of two instants.
+func (e *refEntry) observeExpiry(ns int64) {
+	if e.altE != 0 && ns == e.altE {
+		e.e = e.altE
+	}
+
+	if ns == e.e {
+		e.altE = 0
+	}
 }
 
 func (r *refMap) deleteAll() int {
